@@ -744,3 +744,574 @@ def run(R: vlib.Run):
     except OSError:
         pass
     return R
+
+
+# ------------------------------------------------------------------------------------------------------------------
+# at-scale search
+# ------------------------------------------------------------------------------------------------------------------
+_SCALE_MB = ["é", "Ω", "中", "\U0001f6f0"]        # 2, 2, 3 and 4 bytes in UTF-8
+_SCALE_POW = (1 << 8, 1 << 16, 1 << 18, 1 << 20, 1 << 22, 1 << 24)
+
+
+def _scale_text(nprng, nbytes, multibyte=False, lead=0):
+    """a str whose UTF-8 encoding has exactly `nbytes` bytes: printable ASCII (no blanks) drawn from the numpy stream; with
+    `multibyte`, multi-byte characters are laid over it (the byte count stays, the character count drops) so that one of them
+    straddles every power-of-two byte offset of _SCALE_POW counted from the start of the string and counted from the start of
+    the file (`lead` = file offset of the first byte of the string), plus the first bytes, the last bytes and 40 random places"""
+    import numpy as np
+    b = bytearray(nprng.integers(33, 127, nbytes, dtype=np.uint8).tobytes())
+    if multibyte and nbytes >= 8:
+        spots = [B - 1 for B in _SCALE_POW] + [B - lead - 1 for B in _SCALE_POW] + [0, nbytes - 4]
+        spots += [int(x) for x in nprng.integers(0, nbytes - 4, 40)]
+        used = []
+        for i, o in enumerate(spots):
+            enc = _SCALE_MB[(i + 3) % 4].encode()
+            if o < 0 or o + len(enc) > nbytes or any(abs(o - a) < 4 for a in used):
+                continue
+            b[o:o + len(enc)] = enc
+            used.append(o)
+    return b.decode("utf-8")
+
+
+def _scale_entries(nprng, spec):
+    """header entries from a spec: a list of (key, value) where a value ("text", nbytes, multibyte) stands for _scale_text placed
+    at the file offset it will have inside fmt_header"""
+    off = len(fmt_string(b"HEADER_START"))
+    ents = []
+    for k, v in spec:
+        off += len(fmt_string(k.encode()))
+        if isinstance(v, tuple):
+            v = _scale_text(nprng, v[1], v[2], lead=off + 4)
+        ents.append((k, v))
+        off += len(fmt_value(KEYS[k], v))
+    return ents
+
+
+def _scale_first_diff(a: bytes, b: bytes):
+    import numpy as np
+    n = min(len(a), len(b))
+    x, y = np.frombuffer(a, dtype=np.uint8, count=n), np.frombuffer(b, dtype=np.uint8, count=n)
+    ne = np.flatnonzero(x != y)
+    return int(ne[0]) if ne.size else (n if len(a) != len(b) else None)
+
+
+def _scale_diff(path, head, total, marks):
+    """None when the file is byte-identical to `head` followed by zeros up to `total` bytes and overlaid with `marks`
+    ({absolute offset: bytes}); otherwise a short description of the first difference.  Multi-gigabyte sparse files are compared
+    exactly without reading their holes: the explicit regions (head, marks) are read, then every data extent the file system
+    reports (SEEK_DATA / SEEK_HOLE); a hole reads as zeros by definition, which is what the image holds there."""
+    import errno
+    size = os.path.getsize(path)
+    if size != total:
+        return f"file length {size}, expected {total}"
+    CH = 1 << 24
+
+    def expected(a, e):
+        buf = bytearray(e - a)
+        if a < len(head):
+            seg = head[a:min(e, len(head))]
+            buf[:len(seg)] = seg
+        for o, m in marks.items():
+            lo, hi = max(a, o), min(e, o + len(m))
+            if lo < hi:
+                buf[lo - a:hi - a] = m[lo - o:hi - o]
+        return bytes(buf)
+
+    with open(path, "rb") as f:
+        def cmp_range(a, e):
+            while a < e:
+                n = min(CH, e - a)
+                f.seek(a)
+                got, want = f.read(n), expected(a, a + n)
+                if got != want:
+                    k = _scale_first_diff(got, want)
+                    return f"first differing byte at file offset {a + (k or 0)}"
+                a += n
+            return None
+        r = cmp_range(0, min(len(head), total))
+        for o, m in sorted(marks.items()):
+            r = r or cmp_range(o, min(o + len(m), total))
+        if r:
+            return r
+        off = len(head)
+        fd = f.fileno()
+        while off < total:
+            try:
+                a = os.lseek(fd, off, os.SEEK_DATA)
+            except OSError as ex:
+                if ex.errno == errno.ENXIO:        # no data beyond `off`
+                    break
+                a = off                  # extents not supported here: read everything
+                e = total
+            else:
+                e = min(os.lseek(fd, a, os.SEEK_HOLE), total)
+            r = cmp_range(a, e)
+            if r:
+                return r
+            off = max(e, off + 1)
+    return None
+
+
+def scale(R: vlib.Run):
+    """at-scale search (run when something no longer checks, and in the thorough tier).  Same three demands as run(), on inputs
+    that are large in every dimension a header has:
+      (A) parse_header -> encode_header on headers whose strings have 255..2**24+1 bytes (ASCII and multi-byte UTF-8 with characters
+          straddling the power-of-two offsets), i.e. headers of up to 20 MiB with keys before and after the long value, followed by
+          data sections of 2**24+3 bytes and (sparse) of 2**31 and 2**32 bytes +- a few;
+      (B) Header -> prep_outfile -> Header.from_sigproc with 2**16-1 .. 2**24+1 channels, beam indices and sample counts around
+          2**16, 2**24, 2**31, 2**32, source names of 2**16-1 .. 2**24+1 bytes, a data section beyond 2**32 bytes, hundreds of
+          positions (dense near the poles, the equator and 24h) and pointing angles in every unit, and 150 generations of
+          write -> parse -> write;
+      (C) edit_header on those large headers / large files (whole-file comparison, sparse files through their data extents) and a
+          history of 4000 successive valid and invalid edits of one file against an independently maintained byte image."""
+    import gc
+    import random
+    import shutil
+    import numpy as np
+    from astropy import units as u
+    from astropy.coordinates import Angle, SkyCoord
+    from sigpyproc.header import Header
+    from sigpyproc.io import sigproc
+    warnings.filterwarnings("ignore")
+
+    seed = R.seed + 505
+    d = os.path.join(vlib.SCRATCH, f"c05s_{os.getpid()}")
+    os.makedirs(d, exist_ok=True)
+    path = os.path.join(d, "s.fil")
+
+    def gen(name, idx):
+        return f"props/c05.py scale(): {name}, numpy.random.default_rng([{seed}, {idx}])"
+
+    def short(v):
+        if isinstance(v, str) and len(v) > 40:
+            return f"<str of {len(v)} chars / {len(v.encode())} bytes: {v[:12]!r}...>"
+        return repr(v) if isinstance(v, float) else v
+
+    def describe(ents):
+        return [(k, short(v)) for k, v in ents]
+
+    def table_items(dd):
+        return [(k, v) for k, v in dd.items() if k in sigproc.header_keys]
+
+    # ---- a file image: entries, header bytes, explicit data bytes, total length, marks ---------------------------------
+    def image(ents, tail=b"", total=None, marks=None):
+        hb = fmt_header(ents)
+        return {"ents": list(ents), "hb": hb, "tail": tail, "total": len(hb) + len(tail) if total is None else total, "marks": dict(marks or {})}
+
+    def fresh(F):
+        with open(path, "wb") as f:
+            f.write(F["hb"])
+            f.write(F["tail"])
+            if F["total"] > len(F["hb"]) + len(F["tail"]):
+                f.truncate(F["total"])
+                for o, m in F["marks"].items():
+                    f.seek(o)
+                    f.write(m)
+
+    def sparse_image(ents, datalen, nprng):
+        """header + `datalen` bytes of zeros carrying a few random marks (first / last data bytes, around every power-of-two file
+        offset): the file occupies a few blocks on disk"""
+        hb = fmt_header(ents)
+        total = len(hb) + datalen
+        marks = {}
+        for o in [len(hb), total - 5] + [B - 2 for B in (1 << 16, 1 << 22, 1 << 24, 1 << 31, 1 << 32) if len(hb) + 8 < B < total - 16]:
+            marks[o] = bytes(int(x) for x in nprng.integers(1, 256, 5))
+        return image(ents, b"", total, marks)
+
+    def sparse_ok():
+        """does the scratch file system keep a truncated file sparse and report its extents?"""
+        try:
+            with open(path, "wb") as f:
+                f.truncate((1 << 32) + 11)
+                f.seek(1 << 31)
+                f.write(b"x")
+            st = os.stat(path)
+            fd = os.open(path, os.O_RDONLY)
+            try:
+                a = os.lseek(fd, 0, os.SEEK_DATA)
+                e = os.lseek(fd, a, os.SEEK_HOLE)
+            finally:
+                os.close(fd)
+            return st.st_blocks * 512 < (1 << 24) and a > 0 and e - a < (1 << 24)
+        except (OSError, AttributeError):
+            return False
+        finally:
+            try:
+                os.remove(path)
+            except OSError:
+                pass
+
+    # ---- (A) at scale ---------------------------------------------------------------------------------------------------
+    def check_parse(F, case):
+        """bytes of a well-formed header -> parse_header -> encode_header reproduces the bytes (file already written)"""
+        ents, hb = F["ents"], F["hb"]
+        R.tick(case)
+        try:
+            dd = sigproc.parse_header(path)
+        except Exception as e:  # noqa: BLE001
+            R.fail("scale-parse-raises", f"parse_header raised {type(e).__name__} on a well-formed header at scale: {str(e)[:100]}", case)
+            return
+        got = table_items(dd)
+        if [k for k, _ in got] != [k for k, _ in ents] or not all(same_value(a, b) for (_, a), (_, b) in zip(got, ents)) \
+                or dd.get("hdrlen") != len(hb):
+            badk = [k for (k, a), (_, b) in zip(got, ents) if not same_value(a, b)]
+            R.fail("scale-parse-values", "parse_header at scale returned other values / header length than the bytes hold",
+                   {**case, "keys_differing": badk[:5], "hdrlen_got": dd.get("hdrlen"), "hdrlen_want": len(hb)})
+        R.tick(case)
+        try:
+            back = sigproc.encode_header(dd)
+        except Exception as e:  # noqa: BLE001
+            R.fail("scale-reencode-raises", f"encode_header(parse_header(bytes)) at scale raised {type(e).__name__}: {str(e)[:100]}", case)
+            return
+        if back != hb:
+            R.fail("scale-reencode-bytes", "encode_header(parse_header(bytes)) != bytes at scale",
+                   {**case, "len_got": len(back), "len_want": len(hb), "first_diff": _scale_first_diff(back, hb)})
+
+    # ---- (C) at scale ---------------------------------------------------------------------------------------------------
+    def check_edit(F, k, v, case):
+        """one edit_header call on the file holding image F; on success the image is advanced, otherwise the file is rewritten"""
+        ents, hb, tail, total, marks = F["ents"], F["hb"], F["tail"], F["total"], F["marks"]
+        case = {**case, "key": k, "value": short(v)}
+        R.tick(case)
+        try:
+            sigproc.edit_header(path, k, v)
+            raised = None
+        except Exception as e:  # noqa: BLE001
+            raised = type(e).__name__       # not the exception: its traceback would keep the implementation's frames (and their 16 MiB strings) alive
+        if raised is not None:
+            df = _scale_diff(path, hb + tail, total, marks)
+            if df is not None:
+                R.fail("scale-edit-raise-modified", f"edit_header at scale raised {raised} but the file changed: {df}", case)
+                fresh(F)
+            return "raised"
+        span = value_span(ents, k)
+        if span is None:
+            R.fail("scale-edit-ok-key-absent", "edit_header at scale returned although the key is not in the file", case)
+            fresh(F)
+            return "bad"
+        o, n = span
+        old = dict(ents)[k]
+        want = [v]
+        if KEYS[k] == "str" and isinstance(v, str):
+            want.append(v[:len(old)] + " " * (len(old) - len(v)))
+        if KEYS[k] == "d" and isinstance(v, int):
+            want = [float(v)]
+        for w in want:
+            try:
+                enc = fmt_value(KEYS[k], w)
+            except Exception:  # noqa: BLE001
+                continue
+            if len(enc) != n:
+                continue
+            new_hb = hb[:o] + enc + hb[o + n:]
+            if _scale_diff(path, new_hb + tail, total, marks) is None:
+                F["hb"] = new_hb
+                F["ents"] = [(a, (w if a == k else b)) for a, b in ents]
+                return "ok"
+        # classify as run() does
+        size = os.path.getsize(path)
+        with open(path, "rb") as f:
+            ah = f.read(len(hb))
+        if size != total or len(ah) != len(hb):
+            R.fail("scale-edit-ok-data", f"edit_header at scale returned but the file length changed ({total} -> {size})", case)
+        elif ah[:o] != hb[:o] or ah[o + n:] != hb[o + n:]:
+            k1 = _scale_first_diff(ah[:o], hb[:o])
+            k2 = _scale_first_diff(ah[o + n:], hb[o + n:])
+            R.fail("scale-edit-ok-otherbytes", "edit_header at scale changed header bytes outside the value of the edited key "
+                   f"(value at {o}..{o + n}, first foreign byte changed at {k1 if k1 is not None else o + n + k2})", case)
+        else:
+            df = _scale_diff(path, ah + tail, total, marks)
+            if df is not None:
+                R.fail("scale-edit-ok-data", f"edit_header at scale returned but the data bytes changed: {df}", case)
+            else:
+                R.fail("scale-edit-ok-value", "edit_header at scale returned but the stored value is not the requested one", case)
+        fresh(F)
+        return "bad"
+
+    # ---- (B) at scale ---------------------------------------------------------------------------------------------------
+    def mk(**kw):
+        dd = dict(filename="x.fil", data_type="filterbank", nchans=16, foff=-0.5, fch1=1400.0, nbits=8, tsamp=6.4e-5, tstart=60000.25, nsamples=0)
+        dd.update(kw)
+        return Header(**dd)
+
+    def roundtrip(h, case, after_write=None):
+        """write, read back, compare the fields the property lists (same demands and tolerances as run())"""
+        R.tick(case)
+        try:
+            w = h.prep_outfile(path)
+            w.close()
+            if after_write is not None:
+                after_write()
+        except Exception as e:  # noqa: BLE001
+            R.fail("scale-write-raises", f"prep_outfile at scale raised {type(e).__name__}: {e}"[:200], case)
+            return None
+        R.tick(case)
+        try:
+            q = Header.from_sigproc(path)
+        except Exception as e:  # noqa: BLE001
+            R.fail("scale-roundtrip-raises", f"Header.from_sigproc raised {type(e).__name__} on a file written by prep_outfile at scale: {e}"[:240], case)
+            return None
+        for name in ("nchans", "foff", "fch1", "nbits", "tsamp", "tstart", "ibeam", "nbeams", "dm"):
+            if not same_value(getattr(q, name), getattr(h, name)) and getattr(q, name) != getattr(h, name):
+                R.fail("scale-field-" + name, f"{name} not preserved at scale", {**case, "want": getattr(h, name), "got": getattr(q, name)})
+        if q.source != h.source:
+            R.fail("scale-field-source", "source name not preserved at scale",
+                   {**case, "got": short(q.source), "first_diff_byte": _scale_first_diff(q.source.encode("utf-8", "replace"), h.source.encode())})
+        if q.telescope != h.telescope:
+            R.fail("scale-ids-telescope", "telescope identity not preserved at scale", {**case, "got": q.telescope})
+        if q.backend != h.backend:
+            R.fail("scale-ids-backend", "backend identity not preserved at scale", {**case, "got": q.backend})
+        if q.frame != h.frame:
+            R.fail("scale-frame", "reference frame not preserved at scale", {**case, "got": q.frame})
+        for name in ("azimuth", "zenith"):
+            want = getattr(h, name).to_value(u.deg)
+            if not abs(getattr(q, name).to_value(u.deg) - want) <= 1e-9 * max(1.0, abs(want)):
+                R.fail("scale-field-" + name, f"{name} not preserved at scale (Header held it in {getattr(h, name).unit})",
+                       {**case, "want_deg": want, "got_deg": getattr(q, name).to_value(u.deg)})
+        sep = h.coord.separation(q.coord).arcsec
+        if not sep <= 0.01:
+            R.fail("scale-position", f"sky position moved by {sep:.4f} arcsec at scale", {**case, "ra": h.ra, "dec": h.dec, "got_ra": q.ra, "got_dec": q.dec})
+        return q
+
+    try:
+        can_sparse = sparse_ok()
+        if not can_sparse:
+            R.notes.append("at-scale search: the scratch file system does not keep truncated files sparse / report extents; "
+                           "the cases with data sections of 2**31 and 2**32 bytes were skipped")
+        BIGU = [65535, 65536, 65537, (1 << 24) + 1, (1 << 31) - 1, 1 << 31, (1 << 32) - 1]
+
+        # ===== (A)+(C): long strings =====================================================================================
+        lengths = [255, 256, 257, 65535, 65536, 65537, (1 << 18) + 1, (1 << 20) - 1, 1 << 20, (1 << 20) + 1,
+                   (1 << 22) - 1, 1 << 22, (1 << 22) + 1, (1 << 24) - 1, 1 << 24, (1 << 24) + 1]
+        tableA = []
+        for i, L in enumerate(lengths):
+            key = "source_name" if i % 2 == 0 else "rawdatafile"
+            if L < (1 << 24) - 1:
+                tableA += [(key, L, False, 11), (key, L, True, 11)]
+            else:
+                tableA.append((key, L, L != (1 << 24) - 1, 11))
+        tableA.append(("rawdatafile", (1 << 24) + 1, False, 70001))        # both strings long
+        tableA.append(("source_name", (1 << 22) + 1, True, (1 << 22) + 3))
+        for idx, (key, L, mb, L2) in enumerate(tableA):
+            nprng = np.random.default_rng([seed, idx])
+            other = "rawdatafile" if key == "source_name" else "source_name"
+            spec = [("telescope_id", int(nprng.choice(BIGU))), ("machine_id", 10), (key, ("text", L, mb)),
+                    ("nchans", int(nprng.choice(BIGU))), ("fch1", 1400.0 + float(nprng.random())), (other, ("text", L2, mb and L2 > 11)),
+                    ("nbits", int(nprng.choice([1, 2, 4, 8, 16, 32]))), ("foff", -0.5), ("tsamp", 6.4e-5), ("tstart", 60000.0 + float(nprng.random())),
+                    ("ibeam", int(nprng.choice(BIGU))), ("src_raj", 123456.789), ("src_dej", -3015.5)]
+            ents = _scale_entries(nprng, spec)
+            data = nprng.integers(0, 256, 131, dtype=np.uint8).tobytes()
+            F = image(ents, data)
+            fresh(F)
+            base = {"what": "long header strings", "long_key": key, "nbytes": L, "multibyte": mb, "other_string_nbytes": L2, "hdrlen": len(F["hb"]),
+                    "data_len": len(data), "entries": describe(ents), "data": gen("long-string table row " + str(idx), idx)}
+            R.case(("scale", "A-str", key, L, mb, L2), regime="scale")
+            check_parse(F, base)
+            # edits of this file: numeric keys before / after the long value, the long value itself, ill-typed and absent keys
+            oldO = dict(ents)[other]
+            edits = [("nbits", 16), ("telescope_id", (1 << 32) - 1), ("ibeam", -1),
+                     (key, _scale_text(nprng, L, False)), ("source_name", _scale_text(nprng, len(dict(ents)["source_name"]) + 1, False)),
+                     ("rawdatafile", _scale_text(nprng, len(dict(ents)["rawdatafile"].encode()) + 1, False))]
+            if L < (1 << 24) - 1:
+                edits += [("source_name", _scale_text(nprng, max(0, len(dict(ents)["source_name"]) // 2), False)), ("refdm", 1.5), ("tstart", "x"),
+                          (other, _scale_text(nprng, len(oldO.encode()), False)), (key, _scale_text(nprng, L, True)), ("tstart", 59000.5)]
+            for j, (k, v) in enumerate(edits):
+                R.case(("scale", "C-str", key, L, mb, L2, j), regime="scale")
+                check_edit(F, k, v, {**base, "what": "edit of a file with long header strings", "edit_no": j,
+                                     "edits_before": [(a, short(b)) for a, b in edits[:j]]})
+            del F, ents, oldO, edits
+            gc.collect()
+
+        # ===== (A)+(C): large data sections ==============================================================================
+        def full_spec(nprng, nbits, nchans):
+            return [("telescope_id", 64), ("machine_id", 32), ("data_type", 1), ("rawdatafile", ("text", 300, False)), ("source_name", ("text", 40, False)),
+                    ("barycentric", 0), ("pulsarcentric", 1), ("az_start", 359.875), ("za_start", 89.5), ("src_raj", 235959.99999999), ("src_dej", -895959.99999999),
+                    ("tstart", 99999.99999999999), ("tsamp", 1e-9), ("nbits", nbits), ("signed", -128), ("fch1", 1.7976931348623157e308), ("foff", -5e-324),
+                    ("nchans", nchans), ("nifs", (1 << 32) - 1), ("refdm", 9999.999999999998), ("ibeam", (1 << 32) - 1), ("nbeams", 1 << 31)]
+        idx0 = 100
+        nprng = np.random.default_rng([seed, idx0])
+        ents = _scale_entries(nprng, full_spec(nprng, 8, 1))
+        H = len(fmt_header(ents))
+        bigs = [("dense", (1 << 24) + 3, 8, 1)]
+        if can_sparse:
+            bigs += [("sparse", (1 << 31) - H, 8, 1), ("sparse", (1 << 31) + 5, 32, 65537), ("sparse", (1 << 32) - H, 1, 1), ("sparse", (1 << 32) + 9, 2, 3)]
+        for bi, (kind, datalen, nbits, nchans) in enumerate(bigs):
+            idx = idx0 + bi
+            nprng = np.random.default_rng([seed, idx])
+            ents = _scale_entries(nprng, full_spec(nprng, nbits, nchans))
+            if kind == "dense":
+                F = image(ents, nprng.integers(0, 256, datalen, dtype=np.uint8).tobytes())
+            else:
+                F = sparse_image(ents, datalen, nprng)
+            fresh(F)
+            base = {"what": "large data section", "kind": kind, "hdrlen": len(F["hb"]), "data_len": datalen, "file_len": F["total"],
+                    "marks_at": sorted(F["marks"]), "entries": describe(ents), "data": gen(f"large-data table row {bi}", idx)}
+            R.case(("scale", "A-data", kind, datalen), regime="scale")
+            check_parse(F, base)
+            edits = [("nchans", 77), ("nbits", -1), ("source_name", _scale_text(nprng, 17, False)), ("source_name", _scale_text(nprng, 77, False)),
+                     ("rawdatafile", _scale_text(nprng, 299, False)), ("rawdatafile", _scale_text(nprng, 300, False)), ("bogus", 1),
+                     ("refdm", 0.25), ("signed", 127), ("signed", 128), ("fch1", "1400"), ("tstart", 60000)]
+            for j, (k, v) in enumerate(edits):
+                R.case(("scale", "C-data", kind, datalen, j), regime="scale")
+                check_edit(F, k, v, {**base, "what": "edit of a file with a large data section", "edit_no": j,
+                                     "edits_before": [(a, short(b)) for a, b in edits[:j]]})
+            del F
+
+        # ===== (C): a long history of edits of one file ===================================================================
+        idx = 200
+        prng = random.Random(seed * 1000 + idx)
+        g = G(prng)
+        nprng = np.random.default_rng([seed, idx])
+        order = list(KEYS)
+        prng.shuffle(order)
+        ents = []
+        for k in order:
+            if k == "nbits":
+                v = 8
+            elif k == "nchans":
+                v = 4
+            elif KEYS[k] == "str":
+                v = g.ascii_str(prng.choice([16, 40]))
+            else:
+                v = g.value(KEYS[k])
+            ents.append((k, v))
+        F = image(ents, bytes(prng.getrandbits(8) for _ in range(64)))
+        fresh(F)
+        nsteps, outcome = 4000, {"ok": 0, "raised": 0, "bad": 0}
+        base = {"what": "history of successive edits of one file", "data": f"props/c05.py scale(): history, random.Random({seed * 1000 + idx}), all {nsteps} steps "
+                "are regenerated by replaying the generator", "entries_at_start": describe(ents)}
+        recent = []
+        for step in range(nsteps):
+            k = prng.choice(order)
+            code = KEYS[k]
+            c = prng.random()
+            if c < 0.7:
+                if k in ("nbits", "nchans"):
+                    v = prng.choice([1, 2, 4, 8, 16, 32, 65536, (1 << 32) - 1, prng.randrange(1, 1 << 32)])    # zero would make the file unparseable
+                elif code == "str":
+                    n0 = len(dict(F["ents"])[k])
+                    v = g.ascii_str(n0 if k != "source_name" else prng.choice([n0, n0, n0 + prng.randrange(1, 9), max(0, n0 - prng.randrange(1, 9))]))
+                else:
+                    v = g.value(code)
+            elif c < 0.9:
+                v = prng.choice({"I": [-1, 2 ** 32, 1.5, "7"], "b": [128, -129, "1"], "d": ["1.0", 3], "str": [5, 1.5]}[code] + [None])
+                if code == "str" and prng.random() < 0.5:
+                    v = g.ascii_str(len(dict(F["ents"])[k]) + prng.choice([-1, 1]) if k != "source_name" else 0)
+            else:
+                k, v = prng.choice(["bogus", "hdrlen", "nsamples", "HEADER_END", ""]), 1
+            R.case(("scale", "C-history", step), regime="scale")
+            res = check_edit(F, k, v, {**base, "step": step, "previous_edits": list(recent)})
+            outcome[res] += 1
+            recent = (recent + [(k, short(v), res)])[-6:]
+            if outcome["bad"] >= 5:
+                break
+        if outcome["bad"] == 0:
+            R.case(("scale", "A-after-history"), regime="scale")
+            check_parse(F, {**base, "what": "parse -> encode of the file after the history of edits", "steps": nsteps, "outcomes": dict(outcome)})
+        R.extra_cov["scale_edit_history"] = dict(outcome)
+
+        # ===== (B): Header -> file -> Header at scale =====================================================================
+        idx = 300
+        nprng = np.random.default_rng([seed, idx])
+        TEL, MAC, UN = list(TELESCOPES), list(MACHINES), list(UNITS)
+
+        def pick(seq):
+            return seq[int(nprng.integers(len(seq)))]
+        # B1: channel counts, beam indices, sample counts, epochs
+        for nch in (65535, 65536, 65537, (1 << 18) + 1, 1 << 20, (1 << 22) + 1, (1 << 24) + 1):
+            kw = dict(nchans=nch, nbits=pick([1, 2, 4, 8, 16, 32]), ibeam=pick(BIGU), nbeams=pick(BIGU), nsamples=pick([0, (1 << 31) + 7, 1 << 40]),
+                      foff=-400.0 / nch, fch1=800.0, tsamp=pick([1e-9, 6.4e-5, 10.0]), tstart=pick([0.0, 99999.99999999999, 60000.123456789012]),
+                      dm=pick([0.0, 9999.999999999998, 1e-300]), telescope=pick(TEL), backend=pick(MAC), frame=pick(FRAMES))
+            case = {"what": "Header round trip, many channels", **kw, "data": gen("channel-count table", idx)}
+            R.case(("scale", "B-nchans", nch), regime="scale")
+            roundtrip(mk(**kw), case)
+        # B2: long source names (and raw data file names, which move the offsets of the later keys)
+        for j, (L, mb, L2) in enumerate([(65535, False, 0), (65536, True, 70000), (65537, False, 0), ((1 << 20) + 1, True, 0), ((1 << 22) + 1, False, (1 << 20) + 1),
+                                         ((1 << 22) + 1, True, 0), ((1 << 24) + 1, True, 0), ((1 << 24) + 1, False, 65537)]):
+            nprng2 = np.random.default_rng([seed, idx + 1 + j])
+            src, raw = _scale_text(nprng2, L, mb, lead=300), _scale_text(nprng2, L2, False)
+            case = {"what": "Header round trip, long source name", "source_nbytes": L, "multibyte": mb, "rawdatafile_nbytes": L2,
+                    "data": gen("_scale_text(nprng, L, mb, lead=300) then _scale_text(nprng, L2)", idx + 1 + j)}
+            R.case(("scale", "B-source", L, mb, L2), regime="scale")
+            roundtrip(mk(source=src, rawdatafile=raw, ibeam=pick(BIGU), nbeams=pick(BIGU)), case)
+            del src, raw
+        # B3: a data section beyond 2**31 / 2**32 bytes behind the written header
+        if can_sparse:
+            for extra in ((1 << 31) + 5, (1 << 32) + 9):
+                def grow(extra=extra):
+                    with open(path, "r+b") as f:
+                        f.truncate(os.path.getsize(path) + extra)
+                kw = dict(nchans=3, nbits=2, ibeam=65536, nbeams=(1 << 32) - 1, frame="pulsarcentric", telescope="MeerKAT", backend="MWAX-RTB",
+                          coord=SkyCoord(359.99, -0.25, unit="deg"), azimuth=Angle(6.25, unit="rad"), zenith=Angle(5399.5, unit="arcmin"), dm=1234.5678)
+                case = {"what": "Header round trip, file extended by a sparse data section", "data_len": extra,
+                        **{k: str(v) for k, v in kw.items()}, "data": "props/c05.py scale(): B3"}
+                R.case(("scale", "B-bigdata", extra), regime="scale")
+                roundtrip(mk(**kw), case, after_write=grow)
+        # B4: hundreds of positions and pointing angles (dense near the poles, the equator, 24h; every unit)
+        idx = 400
+        nprng = np.random.default_rng([seed, idx])
+        npos = 500
+        for i in range(npos):
+            c = nprng.random()
+            if c < 0.25:
+                dec = float(nprng.uniform(-90, 90))
+            elif c < 0.45:
+                dec = -float(10 ** nprng.uniform(-9, 0))                      # southern, less than a degree
+            elif c < 0.6:
+                dec = float(pick([-1, 1])) * (90 - float(10 ** nprng.uniform(-9, 0)))   # near a pole
+            elif c < 0.8:                                                  # seconds / minutes about to carry
+                dec = float(pick([-1, 1])) * (int(nprng.integers(0, 90)) + pick([0, 30, 59]) / 60 + (60 - float(10 ** nprng.uniform(-9, -1))) / 3600)
+            else:
+                dec = round(float(nprng.uniform(-90, 90)), int(nprng.integers(0, 4)))
+            c = nprng.random()
+            if c < 0.5:
+                ra = float(nprng.uniform(0, 360))
+            elif c < 0.7:
+                ra = 360 - float(10 ** nprng.uniform(-10, 0))
+            elif c < 0.85:
+                ra = 15 * (int(nprng.integers(0, 24)) + pick([0, 30, 59]) / 60 + (60 - float(10 ** nprng.uniform(-9, -1))) / 3600)
+            else:
+                ra = float(10 ** nprng.uniform(-10, 0))
+            dec = max(-90.0, min(90.0, dec))
+            uz, ua = pick(UN), pick(UN)
+            zen = Angle(float(nprng.uniform(0, 90)), unit=u.deg).to(uz)
+            az = Angle(float(pick([nprng.uniform(0, 360), 360 - 10 ** nprng.uniform(-9, 0), 10 ** nprng.uniform(-9, 0)])), unit=u.deg).to(ua)
+            coord = SkyCoord(ra, dec, unit="deg") if i % 4 else SkyCoord(math.radians(ra), math.radians(dec), unit="rad")
+            h = mk(coord=coord, azimuth=az, zenith=zen, frame=pick(FRAMES), telescope=pick(TEL), backend=pick(MAC), ibeam=pick(BIGU), nbeams=pick(BIGU))
+            case = {"what": "Header round trip, position / pointing sweep", "i": i, "ra_deg": ra, "dec_deg": dec, "built_in": "deg" if i % 4 else "rad",
+                    "zenith": f"{zen.value!r} {uz}", "azimuth": f"{az.value!r} {ua}", "data": gen(f"position sweep, draw number {i} of {npos}", idx)}
+            R.case(("scale", "B-pos", i), regime="scale")
+            q = roundtrip(h, case)
+            if q is not None and i % 4 == 0:
+                # the same composition without the file: to_sigproc -> parse_radec
+                R.tick(case)
+                try:
+                    sp = h.to_sigproc()
+                    c2 = sigproc.parse_radec(sp["src_raj"], sp["src_dej"])
+                    sep = h.coord.separation(c2).arcsec
+                    if not sep <= 0.01:
+                        R.fail("scale-position", f"parse_radec(to_sigproc()) moved the sky position by {sep:.4f} arcsec", {**case, "src_raj": sp["src_raj"], "src_dej": sp["src_dej"]})
+                except Exception as e:  # noqa: BLE001
+                    R.fail("scale-roundtrip-raises", f"to_sigproc / parse_radec raised {type(e).__name__}: {e}"[:200], case)
+        # B5: generations: write -> parse -> write -> ... (each generation must preserve the fields of the one before)
+        idx = 500
+        nprng = np.random.default_rng([seed, idx])
+        h = mk(nchans=4096, foff=-0.0732421875, fch1=1510.123456789, nbits=2, tsamp=7.65625e-05, tstart=58123.456789012345, nifs=1,
+               coord=SkyCoord(float(nprng.uniform(0, 360)), -float(nprng.uniform(0, 1)), unit="deg"), azimuth=Angle(float(nprng.uniform(0, 6.28)), unit="rad"),
+               zenith=Angle(float(nprng.uniform(0, 5400)), unit="arcmin"), telescope="Effelsberg LOFAR", backend="PULSAR2000", source=_scale_text(nprng, 300, True),
+               frame="pulsarcentric", ibeam=(1 << 32) - 1, nbeams=65536, dm=float(nprng.uniform(0, 3000)), rawdatafile=_scale_text(nprng, 70000, False))
+        first = h
+        for gen_no in range(150):
+            case = {"what": "generations of write -> parse", "generation": gen_no, "data": gen("B5 header; every generation is the parse of the one before", idx)}
+            R.case(("scale", "B-generation", gen_no), regime="scale")
+            q = roundtrip(h, case)
+            if q is None:
+                break
+            h = q
+        else:
+            if h.source != first.source or h.frame != first.frame or h.telescope != first.telescope or h.backend != first.backend \
+                    or any(getattr(h, n) != getattr(first, n) for n in ("nchans", "foff", "fch1", "nbits", "tsamp", "tstart", "ibeam", "nbeams", "dm")):
+                R.fail("scale-generation-drift", "after 150 generations of write -> parse the exactly-preserved fields (channelisation, times, beams, DM, names, frame) are not the original ones",
+                       {"what": "generations of write -> parse", "generations": 150, "data": gen("B5 header", idx)})
+    finally:
+        shutil.rmtree(d, ignore_errors=True)
